@@ -1049,6 +1049,16 @@ func genGrp(w *bufio.Writer, r *rng, thorough bool, id string) {
 		}
 		// decoded identity (0,-1) through every operation
 		emit(w, "grp dec:%s;g;add:1:0;sub:2:1;smul:0:%s;smul:3:%s;dbl:0;neg:0;z;o;flip:9;mix:1:0", be32(big.NewInt(0)), r.frHex(), r.frHex())
+		// BatchNormalize must only rescale: batches mixing already-normalised (Z = 1) elements —
+		// decoded points, the generator, CRS points — with projective ones, and repeated pointers
+		for i := 0; i < 10; i++ {
+			n := 6 + r.intn(14)
+			prog := genProgram(r, n, false, false) + fmt.Sprintf(";dec:%s;c:%d;norm:%d", be32(boundaryXs()[r.intn(len(boundaryXs()))]), r.intn(256), r.intn(n))
+			if i%2 == 1 {
+				prog += fmt.Sprintf(";alias:%d;alias:%d", r.intn(n), n)
+			}
+			emit(w, "batch %s", prog)
+		}
 	}
 	if id == "C11" {
 		var regs []string
@@ -1060,6 +1070,16 @@ func genGrp(w *bufio.Writer, r *rng, thorough bool, id string) {
 		for i := 0; i+6 <= len(regs); i += 6 {
 			prog := strings.Join(regs[i:i+6], ";") + ";flip:0;resc:1:" + be32(big.NewInt(7)) + ";o;add:2:8"
 			emit(w, "grp %s", prog)
+			emit(w, "batch %s", prog)
+		}
+		// the same pointer several times in one batch: every slot of the caller's storage is written
+		for i := 0; i < 10; i++ {
+			n := 5 + r.intn(12)
+			prog := genProgram(r, n, false, false)
+			for k := 0; k < 1+r.intn(4); k++ {
+				prog += fmt.Sprintf(";alias:%d", r.intn(n))
+			}
+			prog += ";alias:1;alias:1" // the identity referenced twice
 			emit(w, "batch %s", prog)
 		}
 		// large batches (also issued concurrently by the check's second mode)
@@ -2018,6 +2038,7 @@ func genMixed(w *bufio.Writer, r *rng, thorough bool, concurrent bool) {
 			h := makeHonest(r, 1+r.intn(3))
 			emit(w, "%s", h.line(h.label, h.cs, h.zs, h.ys, h.d, h.ls, h.rs, h.a))
 			emit(w, "serde %s - 0 -", hx(h.bytes))
+			emit(w, "serde.ipa %s - 0 -", hx(h.bytes[32:]))
 		default:
 			emit(w, "bary.eval %s %s", polyDesc(r), r.frHex())
 		}
@@ -2030,6 +2051,10 @@ func genMixed(w *bufio.Writer, r *rng, thorough bool, concurrent bool) {
 			emit(w, "tr %s %s", hexOrDash(r.bytes(3)), genTrHistory(r, pool, 10))
 			emit(w, "fr.dec lecanon %s", hx(be32rev(mustUnhex(r.frHex()))))
 			emit(w, "rdsc %s - 0 -", hx(be32rev(mustUnhex(r.frHex()))))
+		}
+		// openings at points inside the domain, side by side (the unit vector b = e_z of each is its own)
+		for i := 0; i < 32; i++ {
+			emit(w, "ipa %s %s %s", labelHex("c"), polyDesc(r), be32(big.NewInt(int64((i*37+r.intn(7))%256))))
 		}
 		// more openings than CPUs, fewer MSM tasks than CPUs
 		emit(w, "mp %s %s", labelHex("c"), openingSet(r, 17, 1, 0))
